@@ -306,11 +306,18 @@ typedef struct {
 	int reenter;                    /* Appendix D "entered" a state that was never exited (ill-defined there) */
 } ref_step;
 
-/* "all active atomic descendants of j are <final> states": the notion of a parallel being done that
- * uscxml's engines and transpilers share (Appendix D instead asks every child of the parallel to have a
- * *direct* final child active, and only looks at the grandparent of the entered final state). */
+/* "every active non-final state below j is an ancestor of an active final state below j": the notion of a
+ * parallel being done that uscxml's engines and transpilers share (a compound region counts as finished when
+ * the chain of active states below it ends in a <final>, however deep).  Appendix D instead asks every child
+ * of the parallel to have a *direct* final child active, and only looks at the grandparent of the entered
+ * final state. */
 static int r_deep_final(const ref_chart* c, int j, rset conf) {
-	for (int k = 0; k < c->ns; k++) if (RHAS(conf, k) && r_is_desc(c, k, j) && r_is_atomic(c, k) && !r_is_final(c, k)) return 0;
+	for (int k = 0; k < c->ns; k++) {
+		if (!RHAS(conf, k) || !r_is_desc(c, k, j) || r_is_final(c, k)) continue;
+		int covered = 0;
+		for (int f = 0; f < c->ns; f++) if (RHAS(conf, f) && r_is_final(c, f) && r_is_desc(c, f, j) && r_is_desc(c, f, k)) covered = 1;
+		if (!covered) return 0;
+	}
 	return 1;
 }
 /* dvariant: 0 = Appendix D; 1 = uscxml, outermost parallel ancestor first; 2 = uscxml, innermost first,
